@@ -32,6 +32,8 @@ _REAL = {
     "os_rename": os.rename, "os_replace": os.replace, "isdir": os.path.isdir,
     "os_makedirs": os.makedirs, "os_listdir": os.listdir,
     "os_getcwd": os.getcwd, "os_getcwdb": os.getcwdb, "os_chdir": os.chdir,
+    "os_lstat": os.lstat, "os_chmod": os.chmod, "os_access": os.access, "os_utime": os.utime,
+    "islink": os.path.islink,
 }
 FAKE_FD_BASE = 1_000_000   # never a valid real descriptor: a stray real syscall gets EBADF
 
@@ -390,6 +392,7 @@ class SimFS:
         self.damaged = {}   # path -> iterable of damaged offsets
         self.removed = []   # paths removed by the tool
         self.aliases = {}       # path -> "f<k>" in order of first use (temp names may be random)
+        self.modes = {}         # path -> permission bits set by the tool
         self.whiteouts = set()  # real paths the tool "removed" (the real file is never touched)
         self.dirs = set()       # directories the tool created
         self.log = EventLog()
@@ -660,17 +663,56 @@ class World:
             raise OSError(29, "Illegal seek")
         return _REAL["os_lseek"](fd, pos, how)
 
-    def _stat_result(self, size, fifo=False):
+    def _stat_result(self, size, fifo=False, path=None):
         import stat
-        mode = (stat.S_IFIFO | 0o600) if fifo else (stat.S_IFREG | 0o644)
-        return os.stat_result((mode, 1, 1, 1, 0, 0, size, 0, 0, 0))
+        mode = (stat.S_IFIFO | 0o600) if fifo else (stat.S_IFREG | self.fs.modes.get(path, 0o644))
+        # one inode per path (os.path.samefile compares st_ino/st_dev)
+        ino = 1000 + int(self.fs.alias(path)[1:]) if path else 1
+        return os.stat_result((mode, ino, 0x51F5, 1, 0, 0, size, 0, 0, 0))
+
+    def _os_chmod(self, path, mode, *a, **kw):
+        if isinstance(path, int):
+            raw = self.fds.get(path)
+            if raw is not None:
+                self.fs.modes[raw._path] = mode & 0o7777
+                return None
+            return _REAL["os_chmod"](path, mode, *a, **kw)
+        vp = self._vpath(path)
+        if vp is None:
+            self.fs.modes[posixpath.normpath(SimFS.norm(path))] = mode & 0o7777   # never the real file
+            return None
+        if vp not in self.fs.files:
+            raise FileNotFoundError(2, "No such file or directory", path)
+        self.fs.modes[vp] = mode & 0o7777
+        return None
+
+    def _os_access(self, path, mode, *a, **kw):
+        vp = self._vpath(path)
+        if vp is None:
+            return _REAL["os_access"](path, mode, *a, **kw)
+        return vp in self.fs.files or self._isdir(path)
+
+    def _os_utime(self, path, *a, **kw):
+        vp = self._vpath(path, writing=True)
+        if vp in self.fs.files or _REAL["exists"](vp):
+            return None
+        raise FileNotFoundError(2, "No such file or directory", path)
+
+    def _islink(self, path):
+        try:
+            vp = self._vpath(path)
+        except Exception:
+            return False
+        if vp is None:
+            return _REAL["islink"](path)
+        return False
 
     def _os_fstat(self, fd):
         if fd in (0, 1, 2):
             return self._stat_result(0, fifo=True)
         raw = self.fds.get(fd)
         if raw is not None:
-            return self._stat_result(len(raw._buf()))
+            return self._stat_result(len(raw._buf()), path=raw._path)
         return _REAL["os_fstat"](fd)
 
     def _os_stat(self, path, *a, **kw):
@@ -684,7 +726,7 @@ class World:
             return _REAL["os_stat"](path, *a, **kw)
         d = self.fs.files.get(vp)
         if d is not None:
-            return self._stat_result(len(d))
+            return self._stat_result(len(d), path=vp)
         if self._isdir(path):
             import stat
             return os.stat_result((stat.S_IFDIR | 0o755, 1, 1, 1, 0, 0, 0, 0, 0, 0))
@@ -908,6 +950,8 @@ class World:
         os.rename = os.replace = self._os_rename
         os.path.isdir, os.makedirs, os.listdir = self._isdir, self._os_makedirs, self._os_listdir
         os.getcwd, os.chdir = self._os_getcwd, self._os_chdir
+        os.lstat, os.chmod, os.access, os.utime = self._os_stat, self._os_chmod, self._os_access, self._os_utime
+        os.path.islink = self._islink
         os.getcwdb = lambda: self._os_getcwd().encode()
         sys.stdin = _StdinShell(self.stdin_buf)
         sys.stdout = self.stdout_txt
@@ -933,6 +977,9 @@ class World:
         os.rename, os.replace = _REAL["os_rename"], _REAL["os_replace"]
         os.path.isdir, os.makedirs, os.listdir = _REAL["isdir"], _REAL["os_makedirs"], _REAL["os_listdir"]
         os.getcwd, os.getcwdb, os.chdir = _REAL["os_getcwd"], _REAL["os_getcwdb"], _REAL["os_chdir"]
+        os.lstat, os.chmod, os.access, os.utime = (_REAL["os_lstat"], _REAL["os_chmod"], _REAL["os_access"],
+                                                   _REAL["os_utime"])
+        os.path.islink = _REAL["islink"]
         sys.stdin, sys.stdout, sys.stderr = s["stdin"], s["stdout"], s["stderr"]
         self._saved = None
         return False
